@@ -16,6 +16,7 @@ import ASV.Proofs.RegionsRingNear
 import ASV.Proofs.RegionsRingUnion
 import ASV.Proofs.RegionsRingOrder
 import ASV.Proofs.RegionsRingInit
+import ASV.Proofs.RegionsRingSections
 namespace ASV.C06
 open ASV ASV.Regions ASV.Components
 
@@ -391,6 +392,38 @@ theorem region_constructor_succeeds_near_origin (W L : Int) (hW : 0 < W) (hWL : 
 example : locationContainsOther (areaTwo 900 60 1000 .fwd) (.simple ⟨20, 60, .fwd⟩) = true ∧
     locationContainsOther (areaTwo 900 60 1000 .fwd) (areaTwo 950 30 1000 .fwd) = true ∧
     locationContainsOther (areaTwo 500 500 1000 .fwd) (.simple ⟨400, 600, .fwd⟩) = false := by decide
+
+/-- **Forming the sections never raises on a ring** (`_partial`: hypothesis `ArcUnions`; no single part covering the
+    whole record = outside `KF-C06-full-record-order`): for well-formed areas of a circular record, `areas.sort()`,
+    the sweep — every `connect_locations([area, location], wrap_point=L)` call — and the first/last merge loop of
+    `create_regions` all return; every section is a family of linked areas grown by joining overlapping families,
+    located exactly at the union of its members, and the sections hold every area exactly once.  With
+    `region_constructor_succeeds_on_ring_partial` the only step of `create_regions` not shown to return is
+    `add_region`'s overlap rejection (sections of different components must have disjoint locations). -/
+theorem ring_sections_succeed_partial (L : Int) (hL : 0 < L) (cands subs : List Feat)
+    (hring : ∀ f ∈ cands ++ subs, RingArea L f.loc)
+    (hfull : ∀ f ∈ cands ++ subs, ∀ p, f.loc = .simple p → ¬ (p.lo = 0 ∧ p.hi = L))
+    (harc : ArcUnions L (cands ++ subs)) (hnd : (ids (cands ++ subs)).Nodup) :
+    ∃ secs, sectionsOf (some L) cands subs = .ok secs ∧ (∀ sec ∈ secs, SecOK L (cands ++ subs) sec) ∧
+      ((secs.map (·.2)).flatten).Perm (cands ++ subs) :=
+  sectionsOf_total hL hring hfull harc hnd
+
+/-- … in the near-origin window (`4 W < L`) without any hypothesis on unions or on full-record parts -/
+theorem ring_sections_succeed_near_origin (W L : Int) (hW : 0 < W) (hWL : 4 * W < L) (cands subs : List Feat)
+    (hnear : ∀ f ∈ cands ++ subs, NearOrigin W L f.loc) (hnd : (ids (cands ++ subs)).Nodup) :
+    ∃ secs, sectionsOf (some L) cands subs = .ok secs ∧ (∀ sec ∈ secs, SecOK L (cands ++ subs) sec) ∧
+      ((secs.map (·.2)).flatten).Perm (cands ++ subs) := by
+  refine sectionsOf_total (by omega) (fun f hf => (hnear f hf).ringArea hW hWL) ?_ (arcUnions_near_origin hW hWL hnear) hnd
+  intro f hf p hp
+  rcases hnear f hf with ⟨q, hq, _, _, h3⟩ | ⟨q, hq, h1, _, _⟩ | ⟨x, y, hxy, _⟩
+  · rw [hp] at hq; cases hq; omega
+  · rw [hp] at hq; cases hq; omega
+  · rw [hp] at hxy; simp [areaTwo] at hxy
+
+/-- non-vacuity: the sections of `nearDemo` (two origin-spanning and three single-part subregions near the origin) -/
+example : (sectionsOf (some 1000) nearDemo.cands nearDemo.subs).toOption.map (fun secs => secs.map (fun x => (x.1, x.2.map (·.id)))) =
+    some [(.compound [⟨900, 1000, .fwd⟩, ⟨0, 60, .fwd⟩], [0, 4, 1, 2]), (.simple ⟨70, 90, .fwd⟩, [3])] := by
+  decide +kernel
 
 /-! ### `create_regions(candidate_clusters=…, subregions=…)`: regions are built from exactly the given areas -/
 
